@@ -123,6 +123,12 @@ func (e E@) Name() string { return ["a", "b", "c"][e] }
 `,
 }
 
+func init() {
+	// functions literally named xxx__N (the spelling overload candidates get), several per file
+	c08Units = append(c08Units, "func conv@__0(x int) int { return x }\n\nfunc conv@__1(x string) string { return x }\n\nfunc conv@__2(x float64) float64 { return x + undefinedConv@ }\n\nfunc conv@__3() {}\n")
+	c08Units = append(c08Units, "func plain@__0(x int) int { return x }\n\nfunc plain@__1(x string) string { return x }\n\nfunc plain@__2(x, y int) int { return x + y }\n")
+}
+
 var c08GoUnits = []string{
 	`func GoF@(x int) int { return x + @ }
 
